@@ -154,7 +154,7 @@ CHECKS = {
                 'interpreter.pattern(<loop variable>); the declared lists are append-only; optimisers neither override nor alter '
                 'publishing; the serializer has one symbol table (created in __init__, ids len(table) under a not-in guard, never '
                 'shrunk) shared by the three files through one serializer; all 26 writes are unmasked bytes([...]) so ids above 255 '
-                'raise. The emitted files are not decoded and compared. A write through a byte-rendering helper of the repository counts as bounded only if the helper is `bytes(<its parameter>)` (a masking helper is a violation); `table.setdefault(name, len(table))` is read as the lookup-or-assign idiom.',
+                'raise. The emitted files are not decoded and compared. A write through a byte-rendering helper of the repository counts as bounded only if the helper is `bytes(<its parameter>)` (a masking helper is a violation); `table.setdefault(name, len(table))` is read as the lookup-or-assign idiom. The transformer base forwards every pattern-construction call (evar .. instantiate_pattern) to the same method of the wrapped interpreter, once, with the same arguments.',
         'note': 'Trusted: python ast; the MAY_PUBLISH table confirmed by reading.',
         'design_ref': 'DESIGN.md section 3, C03',
     },
@@ -187,7 +187,7 @@ CHECKS = {
                 'consumed order-insensitively (automatic rules or a reasoned triage entry) or is unreachable from the serialisation / '
                 'translation entry points; uses of id/hash/directory order/clock/randomness/environment are enumerated and triaged; no '
                 'mutable default arguments, no module- or class-level mutable state written from functions, no cache reading instance '
-                'state. Byte equality of outputs is never observed. Module-level or class-level instances of repository classes whose methods mutate their own attributes, annotated class-level containers mutated through instances, and sequences extended by a set are violations.',
+                'state. Byte equality of outputs is never observed. Module-level or class-level instances of repository classes whose methods mutate their own attributes, annotated class-level containers mutated through instances, and sequences extended by a set are violations. A keyed sort (sorted/min/max with key=) over a set is order-sensitive (ties keep set order); locals of methods are typed with the class\'s attribute types.',
         'note': 'Trusted: annotations for set-typedness; spec/order_triage.py (9 reasoned entries); dict insertion order.',
         'design_ref': 'DESIGN.md section 3, C18',
     },
@@ -222,7 +222,7 @@ CHECKS = {
                 'hypotheses are generated from; the scan and the label set are complete before anything is emitted; declarations come '
                 'first and the lemma block last; floating hypotheses leave in one in-order pass over the insertion-ordered container; '
                 'set iterations in the slicer are triaged by name. Round-trip identity and re-verification of the compressed proof '
-                'are not decided. A `$d` over n variables is recorded as all n(n-1)/2 pairs (the loop headers are evaluated over four abstract variables); the parse transformer, which remembers declared variables, is created per parse and never at import time.',
+                'are not decided. A `$d` over n variables is recorded as all n(n-1)/2 pairs (the loop headers are evaluated over four abstract variables); the parse transformer, which remembers declared variables, is created per parse and never at import time. Every node class reports the variables of all its term- or statement-valued children (no skipped kinds) - the slicer declares what get_metavariables reports; an optional field with a falsy inhabitant (proof: str | None) is never tested by truthiness in the printer / slicer / parser.',
         'note': 'Trusted: python ast; the grammar is read from the `syntax` constant of metamath/parser.py.',
         'design_ref': 'DESIGN.md section 3, C17',
     },
@@ -235,7 +235,7 @@ CHECKS = {
                 'Notation.print_instantiation hands every argument, rendered with the caller\'s options, in position and unfiltered to '
                 'that format string. '
                 'The pretty printer and the serializer override the same 24 methods, each pretty override prints one terminated step '
-                'whose word is the opcode written. Injectivity of rendering in general is not decided. Instantiate.instantiate rebuilds the argument map with all stored entries first in stored order and Notation.__call__ stores arguments by position (the renderer is positional); no interpreter wrapper tests the wrapped interpreter for a class that separates the binary serializer from the pretty printer.',
+                'whose word is the opcode written. Injectivity of rendering in general is not decided. Instantiate.instantiate rebuilds the argument map with all stored entries first in stored order and Notation.__call__ stores arguments by position (the renderer is positional); no interpreter wrapper tests the wrapped interpreter for a class that separates the binary serializer from the pretty printer. The serializer writes an instruction on every path of every call (the pretty printer prints a step for every call).',
         'note': 'Trusted: python ast, str.format placeholder syntax. Known findings: equiv, sorted-exists, kore-exists.',
         'design_ref': 'DESIGN.md section 3, C19',
     },
